@@ -986,6 +986,8 @@ package iavl
 //@   requires tree.ImmutableTree.root != nil && tree.ImmutableTree.root.subtreeHeight != 0 && tree.ImmutableTree.root.leftNodeKey != nil ==> len(tree.ImmutableTree.root.leftNodeKey) == 12 || len(tree.ImmutableTree.root.leftNodeKey) == 32
 //@   requires tree.ImmutableTree.root != nil && tree.ImmutableTree.root.subtreeHeight != 0 && tree.ImmutableTree.root.rightNodeKey != nil ==> len(tree.ImmutableTree.root.rightNodeKey) == 12 || len(tree.ImmutableTree.root.rightNodeKey) == 32
 //@   let wv = tree.ImmutableTree.version + 1
+//@   callsite MutableTree).VersionExists [working-version-looked-up] arg0 == tree && arg1 == wv
+//@   ensures [existing-version-always-looked-up] calls("MutableTree).VersionExists") == 1
 //@   callsite MutableTree).saveFastNodeVersion [index-labelled] arg1 == wv && !tree.skipFastStorageUpgrade
 //@   callsite nodeDB).SaveEmptyRoot [empty-marker] arg1 == wv && tree.ImmutableTree.root == nil
 //@   callsite nodeDB).SaveRoot [reference-root] arg1 == wv && tree.ImmutableTree.root != nil && tree.ImmutableTree.root.nodeKey != nil && arg2 == tree.ImmutableTree.root.nodeKey
